@@ -25,6 +25,12 @@ THEOREMS = [
     "SynKit.Store.incidence_spec",
     "SynKit.Store.mkId_injective",
     "SynKit.Store.merge_edges",
+    "SynKit.Store.addFromStr_spec",
+    "SynKit.Store.addFromStr_parse_error",
+    "SynKit.Store.parseRxns_spec",
+    "SynKit.Store.parseRxns_only_appends",
+    "SynKit.Store.parseRxnsRules_length_mismatch",
+    "SynKit.Store.suffix_unparsed_example",
 ]
 
 
